@@ -350,3 +350,68 @@ def r8(ctx, R):
 def r9(ctx, R):
     from . import c14
     c14.r8(ctx, R)
+
+
+# table B6: sweeper instance state written outside __init__ (it outlives a step and, because sweeper objects live as long as the controller, a run)
+B6 = {
+    ('Sweeper', 'genQI'): 'generator object of the configured preconditioner, rebuilt from the configured name whenever the matrix is rebuilt; no history',
+    ('Sweeper', 'genQE'): 'same for the explicit preconditioner',
+    ('Sweeper', 'parallelizable'): 'flag derived from the configured preconditioner, idempotent',
+    ('Sweeper', 'QI'): 'rebuilt for every sweep index by updateVariableCoeffs (C19.R5 / C02.R6): nothing of an earlier sweep survives',
+    ('Sweeper', 'QE'): 'same',
+    ('QDiagonalization', 'w'): 'set_G_inv: diagonalisation of the configured matrices, a pure function of its argument',
+    ('QDiagonalization', 'S'): 'same',
+    ('QDiagonalization', 'S_inv'): 'same',
+    ('RungeKutta', 'u_secondary'): 'embedded solution: re-created from u[0] in every compute_end_point before it is accumulated',
+    ('RungeKuttaIMEX', 'u_secondary'): 'same',
+    ('MultiStep', 'cache'): 'history of the multistep method: advanced by every step by design; predict() re-creates it when the step does not start where the history ends (fix F23, checked below)',
+    ('RungeKuttaDAE', 'du_init'): 'derivative carried from the end of one step to the start of the next; initialised once from du_exact(t0) - re-runs of BackwardEulerDAE / TrapezoidalRuleDAE / EDIRK4DAE on one controller were bit-identical (only the start guess of the stage solves), kept as a documented exception',
+    ('RungeKuttaDAE', 'fully_initialized'): 'guards the one-time initialisation of du_init (see there)',
+}
+
+
+@rule('C19', 'C19.R10', 'sweeper objects live as long as the controller: every instance attribute a sweeper writes outside __init__ (and every history container it advances) is a tabled entry with a reason (B6) - a history that is not reset at the start of a run makes the second run on a controller differ from the first', floor=10)
+def r10(ctx, R):
+    repo = ctx.repo
+    base = repo.cls('pySDC/core/sweeper.py', 'Sweeper')
+    seen = set()
+    found = {}
+    for ci in repo.subclasses(base):
+        if not (repo.is_library(ci) or 'projects/DAE/sweepers' in ci.module.relpath):
+            continue
+        for name, fn in ci.methods.items():
+            if name == '__init__' or id(fn) in seen:
+                continue
+            seen.add(id(fn))
+            if any('setter' in ast.unparse(d) for d in fn.decorator_list):
+                continue
+            w = f'{ci.module.relpath}:{ci.name}.{name}'
+            for s in ast.walk(fn):
+                tg = s.targets if isinstance(s, ast.Assign) else [s.target] if isinstance(s, (ast.AugAssign, ast.AnnAssign)) else []
+                for t in tg:
+                    for e in (t.elts if isinstance(t, (ast.Tuple, ast.List)) else [t]):
+                        b = e
+                        while isinstance(b, ast.Subscript):
+                            b = b.value
+                        if isinstance(b, ast.Attribute) and isinstance(b.value, ast.Name) and b.value.id == 'self':
+                            found.setdefault((ci.name, b.attr), (w, 'assigned'))
+                if isinstance(s, ast.Call) and isinstance(s.func, ast.Attribute) and s.func.attr in ('update', 'append', 'add', 'pop', 'clear', 'extend', 'insert') and isinstance(s.func.value, ast.Attribute) and isinstance(s.func.value.value, ast.Name) and s.func.value.value.id == 'self' and s.func.value.attr not in ('logger', 'params'):
+                    found[(ci.name, s.func.value.attr)] = (w, f'advanced by .{s.func.attr}(..)')
+    for (cn, attr), (w, how) in sorted(found.items()):
+        R.fn(w)
+        c = f'{cn}.{attr} :: sweeper instance state {how} outside __init__'
+        if (cn, attr) in B6:
+            R.exc(c, w, B6[(cn, attr)])
+        else:
+            R.bad(c, w, 'state that is rebuilt before it is read, or reset at the start of a run (an entry of table B6 with the reason)', f'{how} in {w.split(":")[1]}; nothing on a path from run()/restart_block resets it')
+    # the one tabled history is reset when a new integration starts
+    ms = repo.func('pySDC/implementations/sweeper_classes/Multistep.py', 'MultiStep.predict')
+    cfg = FuncCFG(ms)
+    rs = [s_ for s_ in cfg.stmt_of.values() if isinstance(s_, ast.Assign) and ast.unparse(s_.targets[0]) == 'self.cache' and ast.unparse(s_.value) == 'Cache(self.steps)']
+    g = [ast.unparse(t) for s_ in rs for t, pol in cfg.guards[id(s_)] if pol]
+    fill = [n for n, s_ in cfg.stmt_of.items() if any(isinstance(c, ast.Call) and ast.unparse(c.func) == 'self.cache.update' for c in ast.walk(s_)) and not isinstance(s_, (ast.If, ast.For))]
+    ok = len(rs) == 1 and len(g) == 1 and 'self.cache.t[-1]' in g[0] and 'lvl.time' in g[0] and bool(fill) and all(cfg.reachable(cfg.node_of[id(rs[0])], n) for n in fill)
+    R.check(ok, 'MultiStep.predict :: the history is re-created when the step does not continue it, before the initial value is stored', 'pySDC/implementations/sweeper_classes/Multistep.py:MultiStep.predict', 'self.cache = Cache(self.steps) if the last stored time differs from lvl.time', g)
+    missing = set(B6) - set(found)
+    if missing:
+        raise AnalysisError(f'C19.R10: tabled sweeper state not found any more: {sorted(missing)}')
